@@ -162,6 +162,9 @@ impl<T> HashSet<T> {
     // A-STD: HashSet::is_empty
     #[verifier::external_body]
     pub fn is_empty(&self) -> (r: bool) ensures r == (self@.len() == 0) { unimplemented!() }
+    // A-STD (robustness shim, not used by the pinned text): HashSet::len is the number of elements
+    #[verifier::external_body]
+    pub fn len(&self) -> (r: usize) ensures r == self@.len() { unimplemented!() }
     // A-STD: `Extend::extend` with a Vec adds exactly the vector's elements
     #[verifier::external_body]
     pub fn extend(&mut self, items: Vec<T>)
